@@ -254,6 +254,11 @@ def gen_exprs(tier):
     for n in range(0, 4):
         for args in itertools.product(A, repeat=n):
             out.append(("max",) + args)
+    for n in (9, 10):
+        out.append(("max",) + tuple(A[0] if k % 2 else A[1] for k in range(n)))
+        for bad in (A[3], A[5], A[9]):
+            for pos in range(n):
+                out.append(("max",) + tuple(bad if k == pos else (A[0] if k % 2 else A[1]) for k in range(n)))
     for f in ("present", "ub", "lb"):
         for n in range(0, 3):
             for args in itertools.product(A, repeat=n):
